@@ -509,6 +509,14 @@ func (c *glCtx) call(x *ast.CallExpr) (string, []string) {
 	if ex, ok := c.t.externs[fn]; ok {
 		return "(" + ex.lean + c.externArgs(x, ex) + ")", ex.ret
 	}
+	if fn == "fmt.Errorf" && len(x.Args) >= 1 {
+		// a non-nil error; its text is read as the format string (the interpolated values are not modelled)
+		s, ty := c.expr(x.Args[0])
+		if ty != "string" {
+			c.fail(x, "fmt.Errorf with a non-string format")
+		}
+		return "(some " + s + ")", []string{"error"}
+	}
 	if ex, ok := glLib[fn]; ok {
 		return "(" + ex.lean + args() + ")", ex.ret
 	}
